@@ -3,8 +3,9 @@
    tables regenerated from /repo (gen/RrTables.v) and the independent specification RRSpec. *)
 From Coq Require Import ZArith List Bool.
 From V Require Import base.Cal gen.RrTables rr.RRBase rr.RRNorm rr.RRMasks rr.RRIter rr.RRSpec
-  rr.RRTablesThm rr.RRIterThm rr.RRRefuted rr.RRWeekDefs rr.RRWeekThm rr.RRWeekFinal rr.RRWeekCal
-  rr.RRWeekTop rr.RROverlay rr.RREasterThm rr.RRNwdThm rr.RRAdvanceThm rr.RRNwdCal rr.RRDaysetThm rr.RRSubdailyThm rr.RRFilterThm rr.RRFilterSpec rr.RRPassThm rr.RRGateThm rr.RRTimesetThm rr.RRYearlyThm rr.RRYearlyEasterThm rr.RRCountThm rr.RRYearlyCountThm rr.RRYearlyUntilThm rr.RRYearlyMaxThm.
+  rr.RRTablesThm rr.RRIterThm rr.RRRegress rr.RRWeekDefs rr.RRWeekThm rr.RRWeekFinal rr.RRWeekCal
+  rr.RRWeekTop rr.RROverlay rr.RREasterThm rr.RRNwdThm rr.RRAdvanceThm rr.RRNwdCal rr.RRDaysetThm rr.RRSubdailyThm rr.RRFilterThm rr.RRFilterSpec rr.RRPassThm rr.RRGateThm rr.RRTimesetThm rr.RRYearlyThm rr.RRYearlyEasterThm rr.RRCountThm rr.RRYearlyCountThm rr.RRYearlyUntilThm rr.RRYearlyMaxThm
+  easter.EasterSpec rr.RRSubNorm rr.RRSubLoop rr.RRSubHour rr.RRSubSpec rr.RRSubHourTop rr.RRSubMin rr.RRSubSec.
 Import ListNotations.
 Open Scope Z_scope.
 
@@ -43,34 +44,28 @@ Theorem C01_year_shape_complete : forall y, In (shape_of y) all_shapes.
 Proof. exact year_shape_complete. Qed.
 Print Assumptions C01_year_shape_complete.
 
-(* GUARDED (wnomask_correct of DESIGN.md is false of the code, see C01_wnomask_refuted): for every
-   year 2..9999, week start, and EVERY list of BYWEEKNO members within -51..51, rebuild()'s
+(* wnomask_correct of DESIGN.md (true of the code since /repo commits 83f8e67 + 049bb14; before them it
+   was refuted for members +-52 / +-53 and raised ValueError in year 1): for every year, week start,
+   and EVERY list of BYWEEKNO members within the RFC 5545 range -53..53, rebuild()'s
    week-number mask marks, on every index the iteration reads, exactly the days whose wkst-week
    number or its negative within the week-year is listed. *)
-Theorem C01_wnomask_correct_guarded : forall year wk L,
-  2 <= year <= 9999 -> 0 <= wk <= 6 -> forallb weekno_safe L = true ->
+Theorem C01_wnomask_correct : forall year wk L,
+  0 <= wk <= 6 -> forallb weekno_safe L = true ->
   let ywd := weekday_of_ord (jan1 year) in
   exists m,
-    build_wnomask year (year_len year) ywd wk (py_from T_WDAYMASK ywd) L = Ok m /\
+    build_wnomask year (year_len year) (year_len (year + 1)) ywd wk (py_from T_WDAYMASK ywd) L = Ok m /\
     zlen m = year_len year + 7 /\
     forall i, used_index (shape_of year) wk i = true ->
       nzb (nth (Z.to_nat i) m 0) = existsb (spec_weekno_clause wk (jan1 year + i)) L.
 Proof. exact wnomask_correct_calendar. Qed.
-Print Assumptions C01_wnomask_correct_guarded.
+Print Assumptions C01_wnomask_correct.
 
-(* the guard is necessary: witness inside its complement (BYWEEKNO = -52) *)
-Theorem C01_wnomask_refuted : exists sh wk n i m,
-  In sh all_shapes /\ 0 <= wk <= 6 /\ used_index sh wk i = true /\
-  shape_mask sh wk [n] = Ok m /\
-  nzb (nth (Z.to_nat i) m 0) <> week_matches sh wk i n.
-Proof. exact wnomask_refuted. Qed.
-Print Assumptions C01_wnomask_refuted.
 
 (* building the mask never raises IndexError: every year 2..9999, every list of integers *)
 Theorem C01_wnomask_no_index_error : forall year wk L,
-  2 <= year <= 9999 -> 0 <= wk <= 6 ->
+  0 <= wk <= 6 ->
   let ywd := weekday_of_ord (jan1 year) in
-  exists m, build_wnomask year (year_len year) ywd wk (py_from T_WDAYMASK ywd) L = Ok m.
+  exists m, build_wnomask year (year_len year) (year_len (year + 1)) ywd wk (py_from T_WDAYMASK ywd) L = Ok m.
 Proof. exact wnomask_no_index_error_calendar. Qed.
 Print Assumptions C01_wnomask_no_index_error.
 
@@ -95,60 +90,43 @@ Theorem C01_carry_loop_terminates :
 Proof. exact finish_advance_never_out_of_fuel. Qed.
 Print Assumptions C01_carry_loop_terminates.
 
-(* ------------------------------------------------------------------ model = spec is FALSE of the code *)
+(* (the former section "model = spec is FALSE of the code" is now the regression section at the end) *)
 (* full statement (NOT provable, kept for the record):
      forall r limit, spec_wf r = true -> exists fuel,
        observable (model_run r limit fuel) = observable (spec_iter r limit fuel)
    Two witnesses inside spec_wf, both reproduced on the implementation by the check
    (known findings F-C01-weekno, F-C01-setpos-week): *)
-Theorem C01_rrule_iter_refuted_weekno : exists r x out,
-  spec_wf r = true /\ r_byweekno r = Some [-52] /\
-  spec_iter r 100 10 = (out ++ [x], SExhausted) /\
-  model_run r 100 10 = Some (out, TUntil).
-Proof. exact rrule_iter_refuted_weekno. Qed.
-Print Assumptions C01_rrule_iter_refuted_weekno.
 
-Theorem C01_rrule_iter_refuted_setpos_week : exists r x,
-  spec_wf r = true /\ r_freq r = WEEKLY /\ r_bysetpos r = Some [1] /\
-  (exists rest, model_run r 100 10 = Some (x :: rest, TCount)) /\
-  ~ In x (fst (spec_iter r 100 10)).
-Proof. exact rrule_iter_refuted_setpos_week. Qed.
-Print Assumptions C01_rrule_iter_refuted_setpos_week.
 
-Theorem C01_rrule_iter_refuted_easter_week : exists r x,
-  spec_wf r = true /\ r_freq r = WEEKLY /\ r_byeaster r = Some [-105; 0] /\
-  spec_iter r 100 20 = ([x], SExhausted) /\
-  model_run r 100 30 = Some ([], TUntil).
-Proof. exact rrule_iter_refuted_easter_week. Qed.
-Print Assumptions C01_rrule_iter_refuted_easter_week.
 
 (* ------------------------------------------------------------------ layer 3: easter mask *)
 (* every Easter index, year length and list of offsets (no bound) *)
-Theorem C01_eastermask_fold_correct : forall eyday ylen offs, 0 <= ylen ->
-  exists m, build_eastermask eyday ylen offs = Ok m /\ zlen m = ylen + 7 /\
+Theorem C01_eastermask_fold_correct : forall eyday neyday ylen offs, 0 <= ylen ->
+  exists m, build_eastermask eyday neyday ylen offs = Ok m /\ zlen m = ylen + 7 /\
     forall j, 0 <= j < ylen + 7 ->
-      nzb (nth (Z.to_nat j) m 0) = existsb (fun off => eyday + off =? j) offs.
+      nzb (nth (Z.to_nat j) m 0) =
+      if j <? ylen then existsb (fun off => eyday + off =? j) offs
+      else match neyday with
+           | Some e2 => existsb (fun off => e2 + off =? j) offs
+           | None => false
+           end.
 Proof. exact eastermask_fold_correct. Qed.
 Print Assumptions C01_eastermask_fold_correct.
 
-(* calendar level, for the years of C19's theorem (bound in the statement): index i is marked
-   iff that day is Easter of `year` plus a listed offset *)
-Theorem C01_eastermask_correct_partial : forall year offs, 1583 <= year <= 4099 ->
+(* calendar level, for the years of C19's theorem (bound in the statement): a day of the year itself
+   is marked iff it is Easter of `year` plus a listed offset, one of the 7 extra days iff it is Easter
+   of year + 1 plus a listed offset (own-year reading of BYEASTER, /repo commit c760855) *)
+Theorem C01_eastermask_correct_partial : forall year offs, 1583 <= year -> year + 1 <= 4099 ->
   let yo := ord_of_ymd year 1 1 in
-  exists eo m, easter_ord year = Ok eo /\ build_eastermask (eo - yo) (year_len year) offs = Ok m /\
+  exists eo eo2 m, easter_ord year = Ok eo /\ easter_ord (year + 1) = Ok eo2 /\
+    build_eastermask (eo - yo) (Some (eo2 - yo)) (year_len year) offs = Ok m /\
     forall i, 0 <= i < year_len year + 7 ->
-      nzb (nth (Z.to_nat i) m 0) = existsb (fun x => yo + i =? easter_ord_spec year + x) offs.
-Proof. exact eastermask_correct_own_year. Qed.
+      nzb (nth (Z.to_nat i) m 0) =
+      existsb (fun x => yo + i =? easter_ord_spec (if i <? year_len year then year else year + 1) + x) offs.
+Proof. exact eastermask_correct_calendar. Qed.
 Print Assumptions C01_eastermask_correct_partial.
 
 (* ... which is the wrong year's Easter for the 7-day extension (F-C01-easter-week) *)
-Theorem C01_eastermask_extension_refuted : exists year offs i eo m,
-  easter_ord year = Ok eo /\ year_len year <= i < year_len year + 7 /\
-  build_eastermask (eo - ord_of_ymd year 1 1) (year_len year) offs = Ok m /\
-  nzb (nth (Z.to_nat i) m 0) = true /\
-  existsb (fun x => ord_of_ymd year 1 1 + i =? easter_ord_spec (year + 1) + x) offs = false.
-Proof. exact eastermask_extension_refuted. Qed.
-Print Assumptions C01_eastermask_extension_refuted.
 
 (* ------------------------------------------------------------------ layer 3: nth-weekday mask *)
 (* every weekday of 1 January, every list of ranges inside the mask, every list of (weekday, n)
@@ -228,12 +206,6 @@ Theorem C01_nwdaymask_yearly_calendar : forall y pairs,
 Proof. exact nwdaymask_yearly_calendar. Qed.
 Print Assumptions C01_nwdaymask_yearly_calendar.
 
-Theorem C01_rrule_iter_refuted_year1 : exists r x rest,
-  spec_wf r = true /\ r_y r = 1 /\
-  fst (spec_iter r 100 10) = x :: rest /\
-  model_run r 100 10 = Some ([], TRaised EValue).
-Proof. exact rrule_iter_refuted_year1. Qed.
-Print Assumptions C01_rrule_iter_refuted_year1.
 
 (* ------------------------------------------------------------------ layer 5: day sets (YEARLY, DAILY) *)
 Theorem C01_ydayset_correct : forall ii, 0 <= yearlen ii ->
@@ -321,15 +293,15 @@ Theorem C01_day_filter_correct_partial : forall r rl ii y i,
 Proof. exact day_filter_correct_tables. Qed.
 Print Assumptions C01_day_filter_correct_partial.
 
-(* the same with BYWEEKNO, inside the guard of F-C01-weekno (members in -51..51), years 2..9999, on
+(* the same with BYWEEKNO (members in the RFC range -53..53), years 1..9999, on
    the iterinfo that rebuild() produces: composes layers 1, 2 and 4 and the constructor *)
-Theorem C01_day_filter_correct_weekno_guarded : forall r rl y month ii i,
+Theorem C01_day_filter_correct_weekno : forall r rl y month ii i,
   normalize r = Ok rl -> spec_wf r = true -> r_byeaster r = None -> plain_only r = true ->
   all_opt (r_byweekno r) weekno_safe = true ->
-  2 <= y <= 9999 -> rebuild rl ii_init y month = Ok ii -> 0 <= i < year_len y ->
+  1 <= y <= 9999 -> rebuild rl ii_init y month = Ok ii -> 0 <= i < year_len y ->
   day_rejected rl ii i = Ok (negb (day_ok r (jan1 y + i))).
 Proof. exact day_filter_correct_weekno_guarded. Qed.
-Print Assumptions C01_day_filter_correct_weekno_guarded.
+Print Assumptions C01_day_filter_correct_weekno.
 
 (* ... and with BYEASTER for the years where C19 proves easter() right: the strongest layer-4
    statement proved.  Missing from DESIGN's day_filter_correct: nth-weekday BYDAY (mask proved, not
@@ -337,8 +309,8 @@ Print Assumptions C01_day_filter_correct_weekno_guarded.
 Theorem C01_day_filter_correct_guarded : forall r rl y month ii i,
   normalize r = Ok rl -> spec_wf r = true -> plain_only r = true ->
   all_opt (r_byweekno r) weekno_safe = true ->
-  (r_byeaster r = None \/ 1583 <= y <= 4099) ->
-  2 <= y <= 9999 -> rebuild rl ii_init y month = Ok ii -> 0 <= i < year_len y ->
+  (r_byeaster r = None \/ 1583 <= y <= 4098) ->
+  1 <= y <= 9999 -> rebuild rl ii_init y month = Ok ii -> 0 <= i < year_len y ->
   day_rejected rl ii i = Ok (negb (day_ok r (jan1 y + i))).
 Proof. exact day_filter_correct_guarded. Qed.
 Print Assumptions C01_day_filter_correct_guarded.
@@ -347,8 +319,8 @@ Print Assumptions C01_day_filter_correct_guarded.
 Theorem C01_day_filter_correct_monthly_nth_guarded : forall r rl y month ii i,
   normalize r = Ok rl -> spec_wf r = true -> r_freq r = MONTHLY -> truthy (bynweekday rl) = true ->
   all_opt (r_byweekno r) weekno_safe = true ->
-  (r_byeaster r = None \/ 1583 <= y <= 4099) ->
-  2 <= y <= 9999 -> 1 <= month <= 12 -> rebuild rl ii_init y month = Ok ii ->
+  (r_byeaster r = None \/ 1583 <= y <= 4098) ->
+  1 <= y <= 9999 -> 1 <= month <= 12 -> rebuild rl ii_init y month = Ok ii ->
   dbm y month <= i < dbm y (month + 1) ->
   day_rejected rl ii i = Ok (negb (day_ok r (jan1 y + i))).
 Proof. exact day_filter_correct_monthly_nth_guarded. Qed.
@@ -359,8 +331,8 @@ Theorem C01_day_filter_correct_yearly_nth_guarded : forall r rl y month ii i,
   normalize r = Ok rl -> spec_wf r = true -> r_freq r = YEARLY -> r_bymonth r = None ->
   truthy (bynweekday rl) = true ->
   all_opt (r_byweekno r) weekno_safe = true ->
-  (r_byeaster r = None \/ 1583 <= y <= 4099) ->
-  2 <= y <= 9999 -> rebuild rl ii_init y month = Ok ii -> 0 <= i < year_len y ->
+  (r_byeaster r = None \/ 1583 <= y <= 4098) ->
+  1 <= y <= 9999 -> rebuild rl ii_init y month = Ok ii -> 0 <= i < year_len y ->
   day_rejected rl ii i = Ok (negb (day_ok r (jan1 y + i))).
 Proof. exact day_filter_correct_yearly_nth_guarded. Qed.
 Print Assumptions C01_day_filter_correct_yearly_nth_guarded.
@@ -376,13 +348,13 @@ Proof. exact filter_loop_correct. Qed.
 Print Assumptions C01_filter_loop_correct.
 
 (* one pass of a YEARLY rule (BYMONTH, BYMONTHDAY, BYYEARDAY, plain BYDAY, guarded BYWEEKNO, BYEASTER
-   in 1583..4099): the surviving days are exactly the days of calendar year y accepted by
+   in 1583..4098): the surviving days are exactly the days of calendar year y accepted by
    RRSpec.day_ok, in order = the day list of RRSpec.cands_coarse for that period *)
 Theorem C01_yearly_pass_days_correct : forall r rl y month ii,
   normalize r = Ok rl -> spec_wf r = true -> r_freq r = YEARLY -> plain_only r = true ->
   all_opt (r_byweekno r) weekno_safe = true ->
-  (r_byeaster r = None \/ 1583 <= y <= 4099) ->
-  2 <= y <= 9999 -> rebuild rl ii_init y month = Ok ii ->
+  (r_byeaster r = None \/ 1583 <= y <= 4098) ->
+  1 <= y <= 9999 -> rebuild rl ii_init y month = Ok ii ->
   exists ds ds' f,
     getdayset rl ii y month 1 = Ok (ds, 0, year_len y) /\
     filter_loop rl ii (py_slice ds 0 (year_len y)) ds false = Ok (ds', f) /\
@@ -404,8 +376,8 @@ Print Assumptions C01_out_days_is_gate.
 Theorem C01_yearly_pass_candidates : forall r rl y month ii ts cnt out,
   normalize r = Ok rl -> spec_wf r = true -> r_freq r = YEARLY -> plain_only r = true ->
   all_opt (r_byweekno r) weekno_safe = true ->
-  (r_byeaster r = None \/ 1583 <= y <= 4099) ->
-  2 <= y <= 9999 -> rebuild rl ii_init y month = Ok ii ->
+  (r_byeaster r = None \/ 1583 <= y <= 4098) ->
+  1 <= y <= 9999 -> rebuild rl ii_init y month = Ok ii ->
   exists ds ds' f,
     getdayset rl ii y month 1 = Ok (ds, 0, year_len y) /\
     filter_loop rl ii (py_slice ds 0 (year_len y)) ds false = Ok (ds', f) /\
@@ -436,8 +408,8 @@ Print Assumptions C01_normalize_start_until.
 Theorem C01_yearly_pass_yields : forall r rl y month ii ts cnt out,
   normalize r = Ok rl -> spec_wf r = true -> r_freq r = YEARLY -> plain_only r = true ->
   all_opt (r_byweekno r) weekno_safe = true ->
-  (r_byeaster r = None \/ 1583 <= y <= 4099) ->
-  2 <= y <= 9999 -> rebuild rl ii_init y month = Ok ii ->
+  (r_byeaster r = None \/ 1583 <= y <= 4098) ->
+  1 <= y <= 9999 -> rebuild rl ii_init y month = Ok ii ->
   exists ds ds' f,
     getdayset rl ii y month 1 = Ok (ds, 0, year_len y) /\
     filter_loop rl ii (py_slice ds 0 (year_len y)) ds false = Ok (ds', f) /\
@@ -458,7 +430,7 @@ Proof. exact timeset_is_spec. Qed.
 Print Assumptions C01_timeset_is_spec.
 
 (* ONE PASS OF THE MODEL = ONE STEP OF THE SPECIFICATION, YEARLY without BYSETPOS, day-selecting parts
-   BYMONTH / BYMONTHDAY / BYYEARDAY / plain BYDAY / guarded BYWEEKNO / BYEASTER (1583..4099): for the
+   BYMONTH / BYMONTHDAY / BYYEARDAY / plain BYDAY / guarded BYWEEKNO / BYEASTER (1583..4098): for the
    period k (year r_y + k*interval in 2..9999), with the iterinfo rebuild() produces, the instants the
    pass adds to the output are exactly what the body of RRSpec.spec_loop adds for step k.
    (Not proved: the induction over passes -- cursor of pass k, rebuild on a non-initial iterinfo,
@@ -468,8 +440,8 @@ Theorem C01_yearly_pass_is_spec_step : forall r rl k month ii ts cnt out,
   r_bysetpos r = None ->
   all_opt (r_byweekno r) weekno_safe = true ->
   let y := r_y r + k * r_interval r in
-  (r_byeaster r = None \/ 1583 <= y <= 4099) ->
-  2 <= y <= 9999 -> rebuild rl ii_init y month = Ok ii -> timeset rl = Some ts ->
+  (r_byeaster r = None \/ 1583 <= y <= 4098) ->
+  1 <= y <= 9999 -> rebuild rl ii_init y month = Ok ii -> timeset rl = Some ts ->
   exists ds ds' f,
     getdayset rl ii y month 1 = Ok (ds, 0, year_len y) /\
     filter_loop rl ii (py_slice ds 0 (year_len y)) ds false = Ok (ds', f) /\
@@ -488,33 +460,34 @@ Proof. exact rebuild_from_previous_year. Qed.
 Print Assumptions C01_rebuild_from_previous_year.
 
 (* rebuild() never raises for rules without nth weekdays (no IndexError, no ValueError): years 2..9999,
-   1583..4099 when BYEASTER is used; any BYWEEKNO list *)
+   1583..4098 when BYEASTER is used; any BYWEEKNO list *)
 Theorem C01_rebuild_succeeds : forall rl y month,
-  2 <= y <= 9999 -> 0 <= wkst rl <= 6 -> truthy (bynweekday rl) = false ->
-  (truthy (byeaster rl) = false \/ 1583 <= y <= 4099) ->
+  1 <= y <= 9999 -> 0 <= wkst rl <= 6 -> truthy (bynweekday rl) = false ->
+  (truthy (byeaster rl) = false \/ 1583 <= y <= 4098) ->
   exists ii', rebuild rl ii_init y month = Ok ii'.
 Proof. exact rebuild_succeeds. Qed.
 Print Assumptions C01_rebuild_succeeds.
 
 (* ------------------------------------------------------------------ layer 7: rrule_iter_correct, one family *)
-(* Full statement of DESIGN.md (FALSE of the code, see the refuted theorems; not proved under guards):
+(* Full statement of DESIGN.md (not proved in full generality; it was FALSE of the code before the four
+   fixes, see the regression theorems at the end):
      forall raw rule n, normalize raw = Some rule ->
        observable (iter_periods rule (fuel_for rule n)) n = spec_iter rule n.
    Proved part (rrule_iter_correct_partial): every YEARLY rule without BYSETPOS / COUNT / UNTIL / BYEASTER
    whose day-selecting parts are BYMONTH, BYMONTHDAY, BYYEARDAY, plain BYDAY and BYWEEKNO within the
-   guard of F-C01-weekno (members in -51..51), start year >= 2: for every number of passes n that stays
+   RFC range -53..53: for every number of passes n that stays
    within year 9999 and every limit, model and specification yield the same instants in the same order
    (constructor + rebuild + day set + filter + time set + gate + advance, by induction over passes). *)
 Theorem C01_rrule_iter_correct_partial : forall r rl limit n,
-  normalize r = Ok rl -> yfam r -> 2 <= r_y r -> r_y r + Z.of_nat n * r_interval r <= 9999 ->
+  normalize r = Ok rl -> yfam r -> 1 <= r_y r -> r_y r + Z.of_nat n * r_interval r <= 9999 ->
   fst (iterate rl limit n) = fst (spec_iter r limit n).
 Proof. exact yearly_iter_correct. Qed.
 Print Assumptions C01_rrule_iter_correct_partial.
 
-(* the same with BYEASTER, when every pass stays within the years of C19's theorem (1583..4099) *)
+(* the same with BYEASTER, when every pass stays within the years of C19's theorem (1583..4098) *)
 Theorem C01_rrule_iter_correct_easter_partial : forall r rl limit n,
-  normalize r = Ok rl -> yfam_e r -> 2 <= r_y r -> r_y r + Z.of_nat n * r_interval r <= 9999 ->
-  (r_byeaster r = None \/ (1583 <= r_y r /\ r_y r + Z.of_nat n * r_interval r <= 4099)) ->
+  normalize r = Ok rl -> yfam_e r -> 1 <= r_y r -> r_y r + Z.of_nat n * r_interval r <= 9999 ->
+  (r_byeaster r = None \/ (1583 <= r_y r /\ r_y r + Z.of_nat n * r_interval r <= 4098)) ->
   fst (iterate rl limit n) = fst (spec_iter r limit n).
 Proof. exact yearly_iter_correct_e. Qed.
 Print Assumptions C01_rrule_iter_correct_easter_partial.
@@ -529,23 +502,23 @@ Print Assumptions C01_count_exhausted_stops.
    beginning of the step after COUNT is used up, the code scans on: same yielded instants for every
    number of passes *)
 Theorem C01_rrule_iter_correct_count_partial : forall r rl limit n,
-  normalize r = Ok rl -> yfam_c r -> 2 <= r_y r -> r_y r + Z.of_nat n * r_interval r <= 9999 ->
-  (r_byeaster r = None \/ (1583 <= r_y r /\ r_y r + Z.of_nat n * r_interval r <= 4099)) ->
+  normalize r = Ok rl -> yfam_c r -> 1 <= r_y r -> r_y r + Z.of_nat n * r_interval r <= 9999 ->
+  (r_byeaster r = None \/ (1583 <= r_y r /\ r_y r + Z.of_nat n * r_interval r <= 4098)) ->
   fst (iterate rl limit n) = fst (spec_iter r limit n).
 Proof. exact yearly_iter_correct_c. Qed.
 Print Assumptions C01_rrule_iter_correct_count_partial.
 
 (* THE STRONGEST FORM PROVED: the family theorem with COUNT and UNTIL (and optional BYEASTER).
    yfam_u r = spec_wf r, FREQ = YEARLY, no BYSETPOS, BYDAY plain (no nth weekday), BYWEEKNO members in
-   -51..51 (the guard of F-C01-weekno); any interval, wkst, BYMONTH, BYMONTHDAY (+/-), BYYEARDAY (+/-),
-   BYHOUR / BYMINUTE / BYSECOND, COUNT, UNTIL, date or datetime start with year >= 2.  For every number
-   of passes n that stays within year 9999 (within 1583..4099 when BYEASTER is used) and every limit,
+   -53..53 (the RFC 5545 range); any interval, wkst, BYMONTH, BYMONTHDAY (+/-), BYYEARDAY (+/-),
+   BYHOUR / BYMINUTE / BYSECOND, COUNT, UNTIL, date or datetime start.  For every number
+   of passes n that stays within year 9999 (within 1583..4098 when BYEASTER is used) and every limit,
    the model of dateutil's generator and the specification yield the same instants in the same
    order.  The specification stops period-wise on UNTIL / COUNT, the code at the first candidate that
    trips the gate (possibly one before dtstart) or never: the yielded instants agree all the same. *)
 Theorem C01_rrule_iter_correct_yearly_partial : forall r rl limit n,
-  normalize r = Ok rl -> yfam_u r -> 2 <= r_y r -> r_y r + Z.of_nat n * r_interval r <= 9999 ->
-  (r_byeaster r = None \/ (1583 <= r_y r /\ r_y r + Z.of_nat n * r_interval r <= 4099)) ->
+  normalize r = Ok rl -> yfam_u r -> 1 <= r_y r -> r_y r + Z.of_nat n * r_interval r <= 9999 ->
+  (r_byeaster r = None \/ (1583 <= r_y r /\ r_y r + Z.of_nat n * r_interval r <= 4098)) ->
   fst (iterate rl limit n) = fst (spec_iter r limit n).
 Proof. exact yearly_iter_correct_u. Qed.
 Print Assumptions C01_rrule_iter_correct_yearly_partial.
@@ -553,7 +526,112 @@ Print Assumptions C01_rrule_iter_correct_yearly_partial.
 (* the same for EVERY number of passes (no bound: when the next year would pass 9999 the code returns
    by the MAXYEAR test, the specification at the next step's range test), rules without BYEASTER *)
 Theorem C01_rrule_iter_correct_yearly_all_fuel_partial : forall r rl limit n,
-  normalize r = Ok rl -> yfam_u r -> r_byeaster r = None -> 2 <= r_y r ->
+  normalize r = Ok rl -> yfam_u r -> r_byeaster r = None -> 1 <= r_y r ->
   fst (iterate rl limit n) = fst (spec_iter r limit n).
 Proof. exact yearly_iter_correct_all. Qed.
 Print Assumptions C01_rrule_iter_correct_yearly_all_fuel_partial.
+
+
+(* ------------------------------------------------------------------ layer 6, sub-daily advance (builder rset, coq/rr/RRSub*.v) *)
+(* one execution of the HOURLY / MINUTELY / SECONDLY advance branch leads to the first later period whose
+   hour (minute, second) is admissible; every skipped period is on a filtered-out day or not admissible,
+   i.e. has an empty candidate list in the specification; the failure exit (ValueError, or TypeError from
+   __mod_distance returning None) happens only when NO later period can ever match. *)
+Theorem C01_advance_correct_hourly : forall r rl k filtered,
+  normalize r = Ok rl -> r_freq r = HOURLY -> 1 <= r_interval r ->
+  0 <= sp_H0 r <= 23 -> 0 <= sp_M0 r <= 59 -> 0 <= sp_S0 r <= 59 ->
+  (forall l, r_byhour r = Some l -> forall x, In x l -> 0 <= x <= 23) -> 0 <= k ->
+  let n := sp_H0 r + k * r_interval r in
+  let od := sp_ord0 r + n / 24 in
+  (filtered = true -> day_ok r od = false) ->
+  exists nd h' k',
+    hourly_core rl filtered (n mod 24) = Ok (nd, h') /\ k < k' /\
+    od + nd = sp_ord0 r + (sp_H0 r + k' * r_interval r) / 24 /\
+    h' = (sp_H0 r + k' * r_interval r) mod 24 /\
+    in_opt (r_byhour r) (Z.eqb h') = true /\
+    forall j, k < j < k' -> period_cands r j = [].
+Proof. exact advance_correct_hourly. Qed.
+Print Assumptions C01_advance_correct_hourly.
+
+Theorem C01_hourly_never_fails : forall r rl filtered k, normalize r = Ok rl -> r_freq r = HOURLY ->
+  1 <= r_interval r -> 0 <= sp_H0 r <= 23 -> 0 <= k ->
+  (forall l, r_byhour r = Some l -> forall x, In x l -> 0 <= x <= 23) ->
+  exists nd h, hourly_core rl filtered ((sp_H0 r + k * r_interval r) mod 24) = Ok (nd, h).
+Proof. exact hourly_never_fails. Qed.
+Print Assumptions C01_hourly_never_fails.
+
+Theorem C01_hourly_core_spec : forall rl filtered hour, 1 <= interval rl -> 0 <= hour <= 23 ->
+  match hourly_core rl filtered hour with
+  | Ok (ndays, h') =>
+      exists j, 1 <= j /\ ndays * 24 + h' = hour + j * interval rl /\ 0 <= h' <= 23 /\ 0 <= ndays /\
+                (truthy (byhour rl) = true -> memZ h' (opt_list (byhour rl)) = true) /\
+                forall i, 1 <= i < j -> skipped_hour rl filtered hour i
+  | Err e => e = EType /\ truthy (byhour rl) = true /\
+             forall i, 1 <= i -> skipped_hour rl filtered hour i
+  end.
+Proof. exact hourly_core_spec. Qed.
+Print Assumptions C01_hourly_core_spec.
+
+Theorem C01_minutely_core_spec : forall rl filtered hour minute day,
+  1 <= interval rl -> 0 <= hour < 24 -> 0 <= minute < 60 ->
+  let A0 := hour * 60 + minute in
+  match minutely_core rl filtered hour minute day with
+  | Ok (mi', hh', dd', fx') =>
+      exists j, 1 <= j /\ (dd' - day) * 1440 + hh' * 60 + mi' = A0 + j * interval rl /\
+        0 <= mi' < 60 /\ 0 <= hh' < 24 /\ day <= dd' /\ (fx' = false -> dd' = day) /\
+        min_adm rl (A0 + j * interval rl) = true /\
+        (filtered = true -> 1439 < A0 + j * interval rl) /\
+        forall i, 1 <= i < j -> skipped_min rl filtered A0 i
+  | Err e => (e = EValue \/ e = EType) /\ forall i, 1 <= i -> skipped_min rl filtered A0 i
+  end.
+Proof. exact minutely_core_spec. Qed.
+Print Assumptions C01_minutely_core_spec.
+
+Theorem C01_secondly_core_spec : forall rl filtered hour minute second day,
+  1 <= interval rl -> 0 <= hour < 24 -> 0 <= minute < 60 -> 0 <= second < 60 ->
+  let A0 := hour * 3600 + minute * 60 + second in
+  match secondly_core rl filtered hour minute second day with
+  | Ok (se', mi', hh', dd', fx') =>
+      exists j, 1 <= j /\ (dd' - day) * 86400 + hh' * 3600 + mi' * 60 + se' = A0 + j * interval rl /\
+        0 <= se' < 60 /\ 0 <= mi' < 60 /\ 0 <= hh' < 24 /\ day <= dd' /\ (fx' = false -> dd' = day) /\
+        sec_adm rl (A0 + j * interval rl) = true /\
+        (filtered = true -> 86399 < A0 + j * interval rl) /\
+        forall i, 1 <= i < j -> skipped_sec rl filtered A0 i
+  | Err e => (e = EValue \/ e = EType) /\ forall i, 1 <= i -> skipped_sec rl filtered A0 i
+  end.
+Proof. exact secondly_core_spec. Qed.
+Print Assumptions C01_secondly_core_spec.
+
+Theorem C01_cands_subdaily_day_periods : forall r j, 1 <= r_interval r ->
+  let u := unit_secs r in
+  let stp := r_interval r * u in
+  let t0 := sub_t0 r in
+  let dlo := (sp_ord0 r + j) * 86400 in
+  let klo := Z.max 0 ((dlo - t0 + stp - 1) / stp) in
+  let khi := (dlo + 86399 - t0) / stp in
+  cands_subdaily_day r j = flat_map (period_cands r) (zrange klo (khi + 1)).
+Proof. exact cands_subdaily_day_periods. Qed.
+Print Assumptions C01_cands_subdaily_day_periods.
+
+(* ------------------------------------------------------------------ regression of the repaired defects *)
+(* the four inputs that were `_refuted` witnesses (model <> specification) before /repo commits 83f8e67,
+   12b1f51, c760855, 049bb14: the model mirrors the fixed code and now agrees with the specification *)
+Theorem C01_regress_weekno : spec_wf raw_weekno = true /\ agrees raw_weekno 100 10 = true /\
+  In (ord_of_ymd 1891 12 31, 0) (fst (spec_iter raw_weekno 100 10)).
+Proof. exact regress_weekno. Qed.
+Print Assumptions C01_regress_weekno.
+
+Theorem C01_regress_setpos_week : spec_wf raw_setpos = true /\ agrees raw_setpos 100 10 = true /\
+  hd_error (fst (spec_iter raw_setpos 100 10)) = Some (ord_of_ymd 1997 9 8, 32400).
+Proof. exact regress_setpos_week. Qed.
+Print Assumptions C01_regress_setpos_week.
+
+Theorem C01_regress_easter_week : spec_wf raw_easter = true /\ agrees raw_easter 100 30 = true /\
+  fst (spec_iter raw_easter 100 30) = [(ord_of_ymd 2017 1 1, 0)].
+Proof. exact regress_easter_week. Qed.
+Print Assumptions C01_regress_easter_week.
+
+Theorem C01_regress_year1 : spec_wf raw_year1 = true /\ agrees raw_year1 100 10 = true /\
+  hd_error (fst (spec_iter raw_year1 100 10)) = Some (ord_of_ymd 1 1 2, 0).
+Proof. exact regress_year1. Qed.
+Print Assumptions C01_regress_year1.
